@@ -100,7 +100,9 @@ def run_rigid_body(sh):
     box = np.asarray(traced(rb.aabb), dtype=float)
     out = dict(aabb=[fl(box[:, 0]), fl(box[:, 1])],
                vertices=np.asarray(rb.vertices_, dtype=float).tolist(),
-               tetrahedra=np.asarray(rb.tetrahedra_).astype(int).tolist())
+               tetrahedra=np.asarray(rb.tetrahedra_).astype(int).tolist(),
+               # the per-tetrahedron boxes the tree is built from: (n, 3, 2) -> [[mins], [maxs]] per tetrahedron
+               tetra_aabbs=[[fl(b[:, 0]), fl(b[:, 1])] for b in np.asarray(rb.aabbs, dtype=float)])
     if sh.get("express_in") is not None:
         # history: aabb() [cached tree] -> express_in(new frame) -> aabb() must describe the NEW stored vertices
         F = pose4(sh["express_in"]["R"], sh["express_in"]["t"])
